@@ -164,7 +164,8 @@ func init() {
 		// keys that yaml.v3 resolves to unusual Go types (integers beyond int64, floats, bools, nulls, timestamps,
 		// binary) at every mapping level: Parse must stay total
 		for _, k := range []string{"18446744073709551615", "9223372036854775808", "0xFFFFFFFFFFFFFFFF", "-9223372036854775808", "0o1777777777777777777777",
-			"1e400", ".inf", "-.inf", ".nan", "~", "null", "true", "2001-12-14t21:59:43.10-05:00", "!!binary aGk=", "!!float 1", "!!int 0x10", "[a, b]", "{a: b}", "? [x]\n"} {
+			"1e400", ".inf", "-.inf", ".nan", "~", "null", "true", "2001-12-14t21:59:43.10-05:00", "!!binary aGk=", "!!float 1", "!!int 0x10", "[a, b]", "{a: b}", "? [x]\n",
+			`"bell\a"`, `"esc\e"`, `"del\x7f"`, `"nul\0"`, `"nel\N"`, `"ls\L"`, `"\U0001F600"`, `"\uFFFE"`, `"tab\there"`, `"quote\"back\\slash"`} {
 			for _, tmpl := range []string{"%s: v\nsteps: []\n", "steps:\n- command: c\n  %s: v\n", "steps:\n- command: c\n  env:\n    %s: v\n", "steps:\n- command: c\n  agents:\n    %s: v\n",
 				"steps:\n- command: c\n  plugins:\n  - docker#v1:\n      %s: v\n", "steps:\n- command: c\n  matrix:\n    setup:\n      %s: [a]\n", "env:\n  %s: v\nsteps: []\n", "steps:\n- wait: ~\n  %s: v\n"} {
 				t := fmt.Sprintf(tmpl, k)
